@@ -32,12 +32,12 @@ SET_KINDS = ('Set', 'TreeSet')
 
 def bounds(tier):
     return ('quick: all 22 families x both implementations, 4-key universe (256 ordered subset pairs) '
-            'x 16 x 16 operand forms (incl. subclass instances, one-shot iterators, equal-but-distinct key objects) x up to 11 operations, plus the extreme universe for set/tree '
+            'x 18 x 18 operand forms (incl. subclass instances, ghost operands that the operation has to load, one-shot iterators, equal-but-distinct key objects) x up to 11 operations, plus the extreme universe for set/tree '
             'operands; thorough: 5-key universe')
 
 
 def required_guards(tier):
-    return ['module', 'operator', 'inplace', 'none_operand', 'iterable_operand', 'multi_leaf_operand',
+    return ['module', 'operator', 'inplace', 'none_operand', 'iterable_operand', 'multi_leaf_operand', 'ghost_operand',
             'unchanged_checked']
 
 
@@ -57,11 +57,12 @@ def jobs(tier):
 # --------------------------------------------------------------------------
 
 FORMS = ['Set', 'TreeSet', 'TreeSet/thin', 'Bucket', 'BTree', 'BTree/thin', 'Set/sub', 'BTree/sub',
-         'list', 'list/shuffled+dup', 'tuple', 'gen', 'iter', 'pyset', 'dict', 'None']
-CONTAINER_FORMS = FORMS[:8]
+         'Set/ghost', 'Bucket/ghost', 'list', 'list/shuffled+dup', 'tuple', 'gen', 'iter', 'pyset', 'dict', 'None']
+CONTAINER_FORMS = FORMS[:10]
 ONE_SHOT = ('gen', 'iter')
 
 _subs = {}
+GHOST = ('ghost',)
 
 
 def subclass_of(cls):
@@ -108,6 +109,8 @@ def make(fam, impl, form, subset, keys, vals):
                         del c[k]
                     else:
                         c.remove(k)
+        if form.endswith('/ghost'):
+            ghostify(c)
         return c
     if form == 'list':
         return [clone(k) for k in subset]
@@ -128,10 +131,24 @@ def make(fam, impl, form, subset, keys, vals):
     raise ValueError(form)
 
 
+def ghostify(c):
+    """Store the container through a data manager (vt.minidb) and deactivate it: the operand of the
+    operation is then a GHOST that the operation itself has to load."""
+    from .. import minidb as M
+    conn = M.Connection(M.Storage())
+    conn.add(c)
+    conn.commit()
+    c._p_deactivate()
+    if c._p_state != -1:
+        raise RuntimeError('operand did not turn into a ghost')
+
+
 def snapshot(obj, form):
     kind = form.split('/')[0]
     if obj is None or form in ONE_SHOT:
         return None
+    if form.endswith('/ghost') and obj._p_state == -1:
+        return GHOST        # not touched before the operation; compared by contents afterwards
     if kind in F.KINDS:
         return C.dump(obj, kind in F.TREE_KINDS)
     if isinstance(obj, (list, tuple)):
@@ -263,6 +280,15 @@ def job(fam, impl, n, variant):
                     for which, o, f, s0 in (('first', a, fa, sa), ('second', b, fb, sb)):
                         if which == 'first' and skip_a:
                             continue
+                        if s0 is GHOST:
+                            sub_ = A if which == 'first' else B
+                            got_ = list(o.keys())
+                            if got_ != list(sub_):
+                                rep.add(dict(site=opname, cls='operand-modified', impl=impl, which=which,
+                                             form=f.split('/')[0], ghost=True), case,
+                                        '%s: the ghost operand reads %r afterwards, stored %r'
+                                        % (opname, got_, list(sub_)))
+                            continue
                         if snapshot(o, f) != s0:
                             rep.add(dict(site=opname, cls='operand-modified', impl=impl, which=which,
                                          form=f.split('/')[0]), case,
@@ -299,10 +325,16 @@ def job(fam, impl, n, variant):
                         rep.add(dict(site=name, cls='not-new', impl=impl, fa=ka, fb=kb), case,
                                 '%s returned one of its operands' % name)
                     unchanged(name, a, b, sa, sb)
+                    # the result shares no storage with an operand: emptying it must not reach them
+                    if r[1] is not a and r[1] is not b and hasattr(r[1], 'clear'):
+                        if run(r[1].clear)[0] == 'ok':
+                            unchanged(name + '/result-cleared', a, b, sa, sb)
                 if fa == 'None' or fb == 'None' or not a_is_cont:
                     continue
                 if 'thin' in fa or 'thin' in fb:
                     guards['multi_leaf_operand'] += 1
+                if 'ghost' in fa or 'ghost' in fb:
+                    guards['ghost_operand'] += 1
                 # ---- binary operators (first operand a container)
                 for name, fn in opers:
                     a, b, sa, sb = fresh()
